@@ -58,6 +58,13 @@ Complex_double zdotc_(INT const& n, std::complex<double> const* x, INT const& in
   ++r_calls; r_which = 16; r_n = n; r_za = x; r_incx = incx; r_zb = y; r_incy = incy; Complex_double r; r.real = 7.0; r.imag = 8.0; return r; }
 void ztrsm_(char const& side, char const& uplo, char const& t, char const& diag, INT const& m, INT const& n, std::complex<double> const& alpha, std::complex<double> const* A, INT const& lda, std::complex<double> const* B, INT const& ldb) {
   ++r_calls; r_which = 17; r_side = side; r_ta = uplo; r_tb = t; r_diag = diag; r_m = m; r_n = n; r_alpha = alpha.real(); r_ai = alpha.imag(); r_za = A; r_lda = lda; r_zc = const_cast<std::complex<double>*>(B); r_ldb = ldb; }
+void zaxpy_(INT const& n, std::complex<double> const* a, std::complex<double> const* x, INT const& incx, std::complex<double>* y, INT const& incy) { ++r_calls; r_which = 24; r_n = n; r_alpha = a->real(); r_ai = a->imag(); r_za = x; r_incx = incx; r_zc = y; r_incy = incy; }
+void zscal_(INT const& n, std::complex<double> const& a, std::complex<double>* x, INT const& incx) { ++r_calls; r_which = 25; r_n = n; r_alpha = a.real(); r_ai = a.imag(); r_zc = x; r_incx = incx; }
+void zcopy_(INT const& n, std::complex<double> const* x, INT const& incx, std::complex<double>* y, INT const& incy) { ++r_calls; r_which = 26; r_n = n; r_za = x; r_incx = incx; r_zc = y; r_incy = incy; }
+void zswap_(INT const& n, std::complex<double>* x, INT const& incx, std::complex<double>* y, INT const& incy) { ++r_calls; r_which = 27; r_n = n; r_za = x; r_incx = incx; r_zc = y; r_incy = incy; }
+double dznrm2_(INT const& n, std::complex<double> const* x, INT const& incx) { ++r_calls; r_which = 28; r_n = n; r_za = x; r_incx = incx; return 5.0; }
+double dzasum_(INT const& n, std::complex<double> const* x, INT const& incx) { ++r_calls; r_which = 29; r_n = n; r_za = x; r_incx = incx; return 6.0; }
+INT izamax_(INT const& n, std::complex<double> const* x, INT const& incx) { ++r_calls; r_which = 30; r_n = n; r_za = x; r_incx = incx; return 2; }
 INT idamax_(INT const& n, double const* x, INT const& incx) { ++r_calls; r_which = 10; r_n = n; r_a = x; r_incx = incx; return 2; }   // 1-based position 2
 }
 static auto mk2(double* p, L s0, L s1, L n0, L n1) {
@@ -470,3 +477,54 @@ template<int LAYOUT, int SA, int SB> static void t_ztrsm() {
 #define ZT(LY, SA, SB) VF_HARNESS(ztrsm_s##SA##SB##_l##LY) { t_ztrsm<LY, SA, SB>(); }
 #define ZT4(SA, SB) ZT(0, SA, SB) ZT(1, SA, SB) ZT(2, SA, SB) ZT(3, SA, SB)
 ZT4(0, 0) ZT4(1, 0) ZT4(0, 1)   // trsm(J(a), J(b)) is ill-formed when instantiated (trsm.hpp names an undeclared `bbase`): no behaviour to check
+
+VF_HARNESS(zlevel1) {   // axpy, scal, copy, swap, nrm2, asum, iamax on strided vectors of complex<double>
+  L n = vf_range(0, 4); L sx = vf_range(1, 3); L sy = vf_range(1, 3); L ox = vf_range(0, 3); L oy = vf_range(0, 3);
+  multi::subarray<std::complex<double>, 1> x(multi::layout_t<1>(multi::layout_t<0>{}, sx, 0, sx * n), g_za + ox);
+  multi::subarray<std::complex<double>, 1> y(multi::layout_t<1>(multi::layout_t<0>{}, sy, 0, sy * n), g_zb + oy);
+  std::complex<double> const alpha{2.0, 0.5};
+  L op = vf_range(24, 30);
+  double res = 0.0; long imax = -1; bool rejected = false;
+  try {
+    if(op == 24) { multi::blas::axpy(alpha, x, y); }
+    else if(op == 25) { multi::blas::scal(alpha, y); }
+    else if(op == 26) { multi::blas::copy(x, y); }
+    else if(op == 27) { multi::blas::swap(x, y); }
+    else if(op == 28) { multi::blas::nrm2(x, res); }
+    else if(op == 29) { multi::blas::asum(x, res); }
+    else { if(n > 0) { imax = multi::blas::iamax(x.begin(), x.end()); } else { rejected = true; } }
+  } catch(...) { rejected = true; }
+  if(!rejected) {
+    vf_assert(r_calls == 1 && r_which == op, "exactly one call of the matching complex BLAS routine");
+    vf_assert(r_n == n, "n is the logical length");
+    if(op == 24 || op == 26 || op == 27) vf_assert(r_za == g_za + ox && r_incx == sx && r_zc == g_zb + oy && r_incy == sy, "(x, incx, y, incy) denote the logical vectors");
+    if(op == 25) vf_assert(r_zc == g_zb + oy && r_incx == sy && r_alpha == 2.0 && r_ai == 0.5, "(a, x, incx) denote the scalar and the vector");
+    if(op == 24) vf_assert(r_alpha == 2.0 && r_ai == 0.5, "alpha passed unchanged");
+    if(op == 28 || op == 29 || op == 30) vf_assert(r_za == g_za + ox && r_incx == sx, "(x, incx) denote the logical vector");
+    if(op == 28) vf_assert(res == 5.0, "nrm2 returns the routine's result");
+    if(op == 29) vf_assert(res == 6.0, "asum returns the routine's result");
+    if(op == 30) vf_assert(imax == 1, "iamax re-bases the 1-based Fortran position to a 0-based index");
+  }
+  vf_reach("zlevel1");
+}
+
+VF_HARNESS(gemv_forms) {   // lazy gemv range: y = gemv(alpha, A, x) (beta = 0), y += gemv(alpha, A, x) (beta = 1)
+  L M = vf_range(1, NB); L N = vf_range(1, NB);
+  L as0, as1; mat_layout(M, N, as0, as1);
+  L sx = vf_range(1, 3); L sy = vf_range(1, 3); L oa = vf_range(0, 3); L ox = vf_range(0, 3); L oy = vf_range(0, 3);
+  auto A = mk2(g_ma + oa, as0, as1, M, N); auto x = mk1(g_mb + ox, sx, N); auto y = mk1(g_mc + oy, sy, M);
+  L form = vf_range(0, 1); bool rejected = false;
+  try { if(form == 0) { y = multi::blas::gemv(2.0, A, x); } else { y += multi::blas::gemv(2.0, A, x); } } catch(...) { rejected = true; }
+  if(!rejected) {
+    vf_assert(r_calls == 1 && r_which == 2, "exactly one dgemv call");
+    vf_assert(r_ta == 'N' || r_ta == 'T', "transposition flag is valid");
+    vf_assert(r_lda >= maxl(1, r_m), "lda satisfies the BLAS precondition");
+    vf_assert(r_incx == sx && r_incy == sy && r_b == g_mb + ox && r_c == g_mc + oy, "vector arguments denote x and y");
+    vf_assert(r_alpha == 2.0 && r_beta == (form == 0 ? 0.0 : 1.0), "alpha is the range's scalar; beta is 0 for assignment and 1 for +=");
+    L i = vf_range(0, NB - 1); L j = vf_range(0, NB - 1); vf_assume(i < M && j < N);
+    L rows = r_ta == 'N' ? r_m : r_n; L cols = r_ta == 'N' ? r_n : r_m;
+    vf_assert(rows == M && cols == N, "op(A) has the logical shape of A");
+    vf_assert((r_a - g_ma) + opaddr(r_ta, r_lda, i, j) == oa + i * as0 + j * as1, "op(A)(i,j) denotes A[i][j] for every index pair");
+  }
+  vf_reach("gemv_forms");
+}
